@@ -439,7 +439,7 @@ def run(ctx):
     # ------------------------------------------------------------------------------------------------------------
     # random
     # ------------------------------------------------------------------------------------------------------------
-    n_random = 260 if quick else 4000
+    n_random = 1500 if quick else 12000
     for i in range(n_random):
         if i % 3 == 0:
             kind = rng.choice(['dyadic', 'int', 'plateau', 'spike', 'step'])
@@ -471,7 +471,7 @@ def run(ctx):
     # ------------------------------------------------------------------------------------------------------------
     # band-limited periodic signals through resample_to_approx_dt
     # ------------------------------------------------------------------------------------------------------------
-    for i in range(80 if quick else 800):
+    for i in range(300 if quick else 3000):
         even = rng.random() < 0.6
         dt = rng.choice([0.01, 0.02, 0.005, 0.5, 1.0])
         if rng.random() < 0.5:
@@ -489,7 +489,7 @@ def run(ctx):
     # ------------------------------------------------------------------------------------------------------------
     # consumer
     # ------------------------------------------------------------------------------------------------------------
-    for i in range(12 if quick else 80):
+    for i in range(30 if quick else 200):
         n = gen.log_int(rng, 8, 120)
         dt = rng.choice([0.01, 0.02, 0.05, 0.1, 0.005])
         a = gen.noise_record(rng, n)
